@@ -501,6 +501,43 @@ func init() {
 			if n < 2 {
 				x.fail(hk+" pulls", x.fpos(host), "expected a change pull and a snapshot pull in the pull preparation")
 			}
+			// every answer that is not an error comes after the comparison — also the push-only answer, which pulls
+			// nothing: the push has discarded the stale client's changes, and an OK leaves it retrying for ever
+			{
+				cut := map[prog.Edge]bool{}
+				for _, b := range host.Blocks {
+					iff := prog.IfOf(b)
+					if iff == nil {
+						continue
+					}
+					if _, found := relOnTrue(iff.Cond, differ.L, differ.R, nil); !found {
+						continue
+					}
+					for _, sc := range b.Succs {
+						cut[prog.Edge{From: b, To: sc}] = true
+					}
+					for _, a := range host.Blocks {
+						ai := prog.IfOf(a)
+						if ai == nil || a == b {
+							continue
+						}
+						bo, ok := ai.Cond.(*ssa.BinOp)
+						if !ok || !(prog.IsNilConst(bo.X) || prog.IsNilConst(bo.Y)) {
+							continue
+						}
+						for _, sc := range a.Succs {
+							if sc != b && !sc.Dominates(b) && a.Dominates(b) {
+								cut[prog.Edge{From: a, To: sc}] = true
+							}
+						}
+					}
+				}
+				for i, r := range successReturns(host) {
+					tested := len(cut) > 0 && prog.CutDisconnects(host, r.Block(), cut)
+					x.check(tested, fmt.Sprintf("%s ok-return#%d after-the-epoch-comparison", hk, i+1), x.pos(r), "the epochs were compared before this answer",
+						"the pull preparation can answer OK without the epochs having been compared (the push-only shortcut): the push has already discarded the changes of a client of the previous generation, which is then never told to re-attach and keeps retrying while its edits reach nobody")
+				}
+			}
 			// the mismatch edge returns the sentinel
 			okSentinel := false
 			for _, r := range prog.Returns(host) {
